@@ -101,6 +101,12 @@ def good_bins(bins):
     return all(isinstance(b, int) for b in bins) and all(x < y for x, y in zip(bins, bins[1:])) and bins[-1] == 127
 
 
+def d16_bins(bins):
+    """the D16 class exactly: integer bins whose top is below 127 or that repeat a value"""
+    return len(bins) > 0 and all(isinstance(b, int) and not isinstance(b, bool) for b in bins) and \
+        (bins[-1] != 127 or any(x >= y for x, y in zip(bins, bins[1:])))
+
+
 def bin_value(bins, v):
     for b in bins:
         if v <= b:
